@@ -195,6 +195,7 @@ def cli_case(draw):
     c = draw(api_case())
     c["sub"] = "cli"
     c["filter"] = draw(st.sampled_from([None, None, "discard_trimmed", "discard_untrimmed"]))
+    c["default_indexing"] = draw(st.booleans())
     return c
 
 
@@ -205,7 +206,14 @@ def check_cli(case, ctx):
     except (ValueError, KeyError):
         ctx.excluded += 1
         return
-    sc = {"paired": False, "ad1": case["ad"], "ad2": [], "glob": dict(case["glob"], no_index=True),
+    # "no index is involved": either --no-index is given, or (default indexing) there are not two anchored adapters
+    # of one kind that an index could be built from - the rules must hold for the list exactly as given then, too
+    no_index_possible = sum(d["kind"] == "prefix" for d in case["ad"]) <= 1 and \
+        sum(d["kind"] == "suffix" for d in case["ad"]) <= 1
+    leave_default = bool(case.get("default_indexing")) and no_index_possible
+    if leave_default:
+        ctx.label("cli:default-indexing-without-index")
+    sc = {"paired": False, "ad1": case["ad"], "ad2": [], "glob": dict(case["glob"], no_index=not leave_default),
           "o": {"times": times, "action": action, "rename": "{id} an={adapter_name} ms={match_sequence}"}}
     args = scen.flatten(scen.mod_tokens(sc))
     if case["filter"]:
